@@ -42,9 +42,8 @@ theorem rescope_ok {m : Mode} {h : Heap} {t : Nat} {chain : List Addr} (hc : Cha
     · simp [hp] at hsc
     · simp only [hp] at hsc
       refine Or.inr (Or.inr ?_)
-      simp only [unresolved, Bool.and_eq_true, Bool.not_eq_true', List.any_eq_true]
-      refine ⟨by simpa using hp, s, hs, ?_⟩
-      simp [hres, show s.scope = some r from by simpa using hsc]
+      simp only [unresolved, List.any_eq_true]
+      exact ⟨s, hs, by simp [hres, show s.scope = some r from by simpa using hsc]⟩
 
 /-- generic threading lemma -/
 theorem thread_ok (step : Heap → Addr → Heap × Addr) (t : Nat) (P : Heap → Prop)
@@ -262,10 +261,10 @@ theorem register_ok {h : Heap} (hi : Inv h) (parent : Option Addr) (name : Strin
       · exact ⟨Le.refl h, hi⟩
     · exact ⟨Le.refl h, hi⟩
 
-theorem copyUnit_ok (m : Mode) (hm : m.tag ≠ 0) : ∀ (f : Nat) (h : Heap) (parent : Option Addr) (hostIsSub : Bool) (u : Addr),
-    Inv h → (∀ p, parent = some p → h.tagOf p = some m.tag ∨ h.tagOf p = some 0) →
-    Le h (copyUnit m f h parent hostIsSub u).1 ∧ Inv (copyUnit m f h parent hostIsSub u).1 ∧
-      (copyUnit m f h parent hostIsSub u).1.tagOf (copyUnit m f h parent hostIsSub u).2 = some m.tag := by
+theorem copyUnit_ok (m : Mode) (hm : m.tag ≠ 0) : ∀ (f : Nat) (h : Heap) (parent' : Option Addr) (u : Addr),
+    Inv h → (∀ p, parent' = some p → h.tagOf p = some m.tag ∨ h.tagOf p = some 0) →
+    Le h (copyUnit m f h parent' u).1 ∧ Inv (copyUnit m f h parent' u).1 ∧
+      (copyUnit m f h parent' u).1.tagOf (copyUnit m f h parent' u).2 = some m.tag := by
   intro f
   have empty : ∀ (h : Heap), Inv h →
       Le h (h.alloc m.tag (.node "" none [] [])).1 ∧ Inv (h.alloc m.tag (.node "" none [] [])).1 ∧
@@ -273,19 +272,12 @@ theorem copyUnit_ok (m : Mode) (hm : m.tag ≠ 0) : ∀ (f : Nat) (h : Heap) (pa
     intro h hi
     exact ⟨le_alloc _ _ _, inv_alloc hi hm ⟨by simp [structRefs], by simp [parRefs], by simp [symRefs]⟩, tagOf_alloc_new _ _ _⟩
   induction f with
-  | zero => intro h parent hs u hi _; simp only [copyUnit]; exact empty h hi
+  | zero => intro h parent u hi _; simp only [copyUnit]; exact empty h hi
   | succ f ih =>
-    intro h parent hostIsSub u hi hp
+    intro h parent' u hi hp'
     simp only [copyUnit]
     split
     · rename_i isMod name p0 t0 secs mems _
-      generalize hpar : (if (m.pickle && hostIsSub) = true then none else parent) = parent'
-      have hp' : ∀ p, parent' = some p → h.tagOf p = some m.tag ∨ h.tagOf p = some 0 := by
-        intro p e
-        subst hpar
-        split at e
-        · cases e
-        · exact hp p e
       -- table
       have g1 : Good (h.alloc m.tag (.tab (parent'.bind (tabOf h)) (copyEnts m (entsOf h t0)))).1 m.tag
           (.tab (parent'.bind (tabOf h)) (copyEnts m (entsOf h t0))) := by
@@ -318,15 +310,15 @@ theorem copyUnit_ok (m : Mode) (hm : m.tag ≠ 0) : ∀ (f : Nat) (h : Heap) (pa
         · exact chainOf_ok i2 (f + 1) parent' hp2 s hs
       generalize (r2.2 :: chainOf (f + 1) r2.1 parent') = chain at c2
       -- members
-      have th3 := thread_ok (fun h k => copyUnit m f h (some r2.2) (!isMod) k) m.tag
+      have th3 := thread_ok (fun h k => copyUnit m f h (some r2.2) k) m.tag
         (fun h => h.tagOf r2.2 = some m.tag ∧ h.tagOf r1.2 = some m.tag ∧ ChainOK h m.tag chain ∧
           (∀ p, parent' = some p → h.tagOf p = some m.tag ∨ h.tagOf p = some 0))
         (fun h a hi hP => by
-          obtain ⟨l, i, t⟩ := ih h (some r2.2) (!isMod) a hi (fun p e => by cases e; exact Or.inl hP.1)
+          obtain ⟨l, i, t⟩ := ih h (some r2.2) a hi (fun p e => by cases e; exact Or.inl hP.1)
           exact ⟨l, i, ⟨l.1 _ _ hP.1, l.1 _ _ hP.2.1, hP.2.2.1.mono l, fun p e => (hP.2.2.2 p e).imp (l.1 _ _) (l.1 _ _)⟩, t⟩)
         mems r2.1 i2 ⟨n2, l2.1 _ _ n1, c2, hp2⟩
       obtain ⟨l3, i3, ⟨tu3, tt3, c3, hp3⟩, t3⟩ := th3
-      generalize thread (fun h k => copyUnit m f h (some r2.2) (!isMod) k) r2.1 mems = r3 at l3 i3 tu3 tt3 c3 hp3 t3
+      generalize thread (fun h k => copyUnit m f h (some r2.2) k) r2.1 mems = r3 at l3 i3 tu3 tt3 c3 hp3 t3
       -- sections
       have th4 := thread_ok (fun h k => copyNode m (f + 1) h chain k) m.tag
         (fun h => h.tagOf r2.2 = some m.tag ∧ h.tagOf r1.2 = some m.tag ∧ ChainOK h m.tag chain ∧
@@ -352,7 +344,7 @@ theorem copyUnit_ok (m : Mode) (hm : m.tag ≠ 0) : ∀ (f : Nat) (h : Heap) (pa
           · exact ls.1 _ _ (tm4 x hx)
         · simp only [parRefs, Option.mem_toList] at hx
           exact (hp4 x hx).imp (ls.1 _ _) (ls.1 _ _)
-      obtain ⟨l6, i6⟩ := register_ok i5 (if (m.pickle && hostIsSub) = true then parent else parent') name r2.2
+      obtain ⟨l6, i6⟩ := register_ok i5 parent' name r2.2
       exact ⟨l1.trans (l2.trans (l3.trans (l4.trans (ls.trans l6)))), i6, l6.1 _ _ (ls.1 _ _ tu4)⟩
     · exact empty h hi
 
